@@ -81,7 +81,8 @@ CATEGORY_HISTORY = [("LOAD_LOCAL", "hasname", (1, 0), (1, 4))]
 # same opcode name in two adjacent versions => same operand categories and same 'takes an operand', except:
 NEIGHBOUR_EXCEPTIONS = {("LOAD_FAST", (1, 3)), ("STORE_FAST", (1, 3)),            # 1.3: index co_varnames, not names
                         ("LIST_APPEND", (2, 7)), ("LIST_APPEND", (3, 0)), ("LIST_APPEND", (3, 1)),   # operand since 2.7 / 3.1
-                        ("SET_ADD", (3, 0)), ("SET_ADD", (3, 1))}
+                        ("SET_ADD", (3, 0)), ("SET_ADD", (3, 1)),
+                        ("RERAISE", (3, 10))}                                       # operand (lasti flag) since 3.10
 
 
 def cpython_chain(tabs):
@@ -98,6 +99,11 @@ def neighbour_diffs(tabs, name):
     chain = cpython_chain(tabs)
     if name.endswith("pypy") or name.endswith("graal"):
         others = [n for v, n in chain if v == vt]
+        # ... and the PyPy tables of the neighbouring versions (PyPy-only opcodes have no CPython counterpart)
+        pchain = sorted((tuple(m.version_tuple[:2]), n) for n, m in tabs.items() if n.endswith("pypy") and getattr(m, "version_tuple", None))
+        idx = [i for i, (v, n) in enumerate(pchain) if n == name]
+        if idx:
+            others += [pchain[j][1] for j in (idx[0] - 1, idx[0] + 1) if 0 <= j < len(pchain) and pchain[j][0][0] == vt[0]]
     else:
         idx = [i for i, (v, n) in enumerate(chain) if n == name]
         if not idx:
@@ -258,6 +264,19 @@ class C09:
                         name, num, opc.opname[num], cat))
                 if num not in defined and not same_gap:
                     res.fail("C09|%s|categorised-undefined|%s" % (tag, cat), "%s: %s lists undefined opcode %d" % (name, cat, num))
+        # the category LISTS (hasjrel ...) and the SETS the disassembler really consults (JREL_OPS ...) say the same
+        for lst, st_ in (("hasjrel", "JREL_OPS"), ("hasjabs", "JABS_OPS"), ("hasconst", "CONST_OPS"), ("hasname", "NAME_OPS"),
+                         ("haslocal", "LOCAL_OPS"), ("hasfree", "FREE_OPS"), ("hascompare", "COMPARE_OPS"), ("hasnargs", "NARGS_OPS"),
+                         ("hasvargs", "VARGS_OPS"), ("hasstore", "STORE_OPS"), ("nofollow", "NOFOLLOW")):
+            if hasattr(opc, lst) and hasattr(opc, st_):
+                a, b = set(getattr(opc, lst)), set(getattr(opc, st_))
+                if a != b:
+                    res.fail("C09|%s|list-vs-set|%s" % (tag, lst), "%s: %s and %s differ: only in the list %s, only in the set %s" % (
+                        name, lst, st_, [(n_, opc.opname[n_]) for n_ in sorted(a - b)][:5], [(n_, opc.opname[n_]) for n_ in sorted(b - a)][:5]))
+        jset = set(getattr(opc, "JUMP_OPS", ())) if hasattr(opc, "JUMP_OPS") else None
+        if jset is not None and jset != set(opc.hasjrel) | set(opc.hasjabs):
+            res.fail("C09|%s|list-vs-set|JUMP_OPS" % tag, "%s: JUMP_OPS is not hasjrel + hasjabs: %s" % (
+                name, sorted(jset ^ (set(opc.hasjrel) | set(opc.hasjabs)))[:6]))
         both = set(opc.hasjrel) & set(opc.hasjabs)
         if both:
             res.fail("C09|%s|jrel-and-jabs" % tag, "%s: opcodes %s are both relative and absolute jumps" % (name, sorted(both)))
@@ -300,7 +319,7 @@ class C09:
                 for n, cat, a, b in family_consistency(name, opc, self.ref_tables(ctx, fam), CATS):
                     res.fail("C09|%s|family-category|%s|%s" % (tag, cat, n), "%s: %s %s %s, but CPython %s (same opcode name, same family) %s" % (
                         name, n, "is in" if a else "is not in", cat, fam, "has it there" if b else "does not"))
-            if vt < (3, 6):
+            if vt < (3, 6) or is_variant:
                 res.classes.append("history+neighbours")
                 for n, cat, a, other in neighbour_diffs(self.tabs, name):
                     res.fail("C09|%s|neighbour-category|%s|%s" % (tag, cat, n), "%s: %s %s %s, unlike the same opcode in %s" % (
@@ -311,7 +330,7 @@ class C09:
                             if (opc.opmap[n] in getattr(opc, c2)) != (c2 == cat):
                                 res.fail("C09|%s|category-history|%s|%s" % (tag, n, c2), "%s: %s %s %s; Python %d.%d's dis.py declares it in %s only" % (
                                     name, n, "is in" if c2 != cat else "is not in", c2, vt[0], vt[1], cat))
-                if (1, 5) <= vt:
+                if (1, 5) <= vt < (3, 6):
                     for n, ranges in sorted(HISTORY.items()):
                         want = any(lo <= vt <= hi for lo, hi in ranges)
                         have = n in opc.opmap
